@@ -113,6 +113,14 @@ def root_in_domain(dom, root, p):
     return sv._and(res)
 
 
+def lit(d):
+    if d is not None and d[0] == "Integer":
+        return Fraction(int(d[1]))
+    if d is not None and d[0] == "Rational":
+        return Fraction(int(d[1]), int(d[2]))
+    return None
+
+
 def special_branch(p):
     """which special-case branch of solve_poly_cubic / solve_poly_quartic (solve.cpp) the polynomial takes:
     the branches that solve an auxiliary equation *with the caller's domain* (KF-C30-06)"""
@@ -141,7 +149,8 @@ PROBES = [Fraction(0), Fraction(1), Fraction(-1), Fraction(1, 2), Fraction(7, 3)
 
 class C30(Check):
     pid = "C30"
-    exe = "driver"
+    exe = "driver_solve"
+    builds = [("main", ("driver_solve",))]
     timeout = 20.0
     rule = ("(a) polynomials of degree 0-4 over Q built from chosen roots (rational incl. 0, a+-b*sqrt(c), complex pairs "
             "a+-b*sqrt(c)*i, repeated specs) times a rational leading coefficient, random coefficient vectors, or shifted depressed quartics / cubics "
@@ -191,17 +200,17 @@ class C30(Check):
         poly = st.one_of(
             st.fixed_dictionaries({"kind": st.just("poly"), "specs": speclist, "lead": nz,
                                    "form": st.sampled_from(["expanded", "expanded", "factored", "mixed"]),
-                                   "dom": dom, "op": st.sampled_from(["solve", "solve", "solve", "solve_poly"]),
+                                   "dom": dom, "op": st.sampled_from(["solve", "solve", "solve", "solve_poly", "solve_poly_heuristics"]),
                                    "eq": st.one_of(st.none(), st.none(), st.lists(small, min_size=1, max_size=3))}),
             st.fixed_dictionaries({"kind": st.just("poly"), "coeffs": coeffs, "dom": dom,
-                                   "op": st.sampled_from(["solve", "solve", "solve_poly"]),
+                                   "op": st.sampled_from(["solve", "solve", "solve_poly", "solve_poly_heuristics"]),
                                    "eq": st.one_of(st.none(), st.none(), st.lists(small, min_size=1, max_size=3))}))
         # p(x) = q(x - h), q(y) = y^4 + e y^2 + f y + g (or y^3 + e y + f) with f or g possibly zero: the
         # special-case branches of solve_poly_quartic (g == 0, f == 0) and the zero-discriminant cubic
         shifted = st.fixed_dictionaries({"kind": st.just("poly"), "shifted": st.tuples(small, small, st.one_of(st.just([0, 1]), small),
                                                                                     st.one_of(st.just([0, 1]), small)).map(list),
                                          "deg": st.sampled_from([4, 4, 3]), "lead": nz, "dom": dom,
-                                         "op": st.sampled_from(["solve", "solve_poly"]), "eq": st.none()})
+                                         "op": st.sampled_from(["solve", "solve_poly", "solve_poly_heuristics"]), "eq": st.none()})
         sl2 = st.lists(spec, min_size=0, max_size=2).map(lambda xs: clamp_specs(xs, 2))
         ratl = st.fixed_dictionaries({
             "kind": st.just("rational"), "n1": sl2, "d1": st.lists(spec, min_size=1, max_size=2).map(lambda xs: clamp_specs(xs, 2) or [["q", 1, 1]]),
@@ -337,6 +346,13 @@ class C30(Check):
                 expr = ["Eq", poly_recipe(sv.p_add(p, r)), poly_recipe(r)]
             else:
                 expr = ["Eq", ["add", expr, poly_recipe(r)], poly_recipe(r)]
+        heur = case["op"] == "solve_poly_heuristics"
+        if heur:
+            if deg < 0:
+                self.skip("heuristics:no_coefficients")
+                return
+            form = "coefficients"
+            expr = ["list"] + [rat(c) for c in p]
         desc = "%s(%s, x%s)" % (case["op"], engine.sx(expr), "" if dom[0] == "universal" else ", " + engine.sx(dom_recipe(dom)))
         special = form != "factored" and special_branch(p)
         if special:
@@ -357,7 +373,11 @@ class C30(Check):
             self.skip("known:factored_domain_union_recursion")
             return
         try:
-            res = self.call(case["op"], expr, dom)
+            if heur:
+                d = dom_recipe(dom)
+                res = self.run([["solve_poly_heuristics", expr] + ([d] if d is not None else [])])[-1]
+            else:
+                res = self.call(case["op"], expr, dom)
         except engine.DriverTimeout:
             if irr_factors < 2:
                 raise
@@ -714,6 +734,23 @@ class C30(Check):
                 raise Violation("%s: returned %s does not satisfy equation %d (lhs %s, rhs %s); the solution is %s"
                                 % (desc, [str(sol[j]) for j in range(n)], i, lhs, bvec[i], [str(v) for v in xs]),
                                 {"case": case, "result": res})
+        # the DenseMatrix overload on the augmented matrix [A | b], and the extraction of (A, b) from the equations
+        aug = ["list"] + [["list"] + [rat(v) for v in Amat[i]] + [rat(bvec[i])] for i in range(n)]
+        r2 = self.run([["linsolve_aug", aug, ["list"] + syms], ["linear_eqns_to_matrix", ["list"] + eqs, ["list"] + [syms[j] for j in order]]])
+        if not is_exc(r2[0]):
+            self.cls("linsolve:matrix_form")
+            got2 = [lit(B(v)) for v in r2[0]]
+            if got2 != xs:
+                raise Violation("linsolve(DenseMatrix %s) returned %s, the solution is %s" % (engine.sx(aug), [str(v) for v in got2], [str(v) for v in xs]),
+                                {"case": case, "result": r2[0]})
+        if not is_exc(r2[1]):
+            self.cls("linsolve:eqns_to_matrix")
+            A2 = [[lit(B(v)) for v in row] for row in r2[1][0]]
+            b2 = [lit(B(v)) for v in r2[1][1]]
+            for i in range(n):
+                if any(v is None for v in A2[i]) or b2[i] is None or sum(A2[i][k] * xs[order[k]] for k in range(n)) != b2[i]:
+                    raise Violation("linear_eqns_to_matrix(%s): row %d of (A, b) = (%s, %s) is not satisfied by the solution %s of the equations"
+                                    % (desc, i, [str(v) for v in A2[i]], b2[i], [str(xs[j]) for j in order]), {"case": case, "result": r2[1]})
         if n >= 3 or perm != sorted(perm):
             self.nontriv(("linsolve", [[str(v) for v in row] for row in Amat], [str(v) for v in bvec], case["eqform"], order))
             self.cls("nontrivial")
